@@ -16,7 +16,7 @@ ASSUMPTIONS = ["producer holds valid and the token (payload, param, first, last)
                "constructor parameters enumerated as in C03"]
 BOUNDS = {"quick": "stability: BMC K=16 from reset; progress: L-step from arbitrary state (L = 2..8 per element)",
           "thorough": "stability: BMC K=24 from reset; progress as quick over the whole catalogue; 2-3 element compositions"}
-OUTSIDE = "fairness between several sinks of a multiplexer; schedules longer than K for the stability obligation"
+OUTSIDE = "fairness between several sinks of a multiplexer; schedules longer than K for the stability obligation; progress of the packet.py elements (C16 witnesses only)"
 
 
 def _build(name, K, which):
@@ -26,9 +26,56 @@ def _build(name, K, which):
     raise KeyError(name)
 
 
+def _packet(kind, K, **kw):
+    """stability of the DUT-driven endpoints of the packet.py elements (same environment and monitors as C16, other obligation):
+    once valid is raised towards a consumer, valid and the whole token stay until ready"""
+    from migen import Signal
+    from vf.harness import H
+    from vf.axil import valid_stable_monitor
+    from vf.props import c16
+    F = ["litex.soc.interconnect.packet.Status", "litex.soc.interconnect.packet.Arbiter", "litex.soc.interconnect.packet.Dispatcher", "litex.soc.interconnect.packet.PacketFIFO",
+         "litex.soc.interconnect.packet.Packetizer", "litex.soc.interconnect.packet.Depacketizer"]
+    if kind == "arbiter":
+        m = c16.ArbMon(kw["n"])
+        bad = valid_stable_monitor(m, m.slave, "slave")
+        return H("packet_arbiter_%d.stable" % kw["n"], m, m.free, assume=[m.asm], bad=dict(stable=bad), witness=dict(all_sources_served=m.w), K=K, funcs=F, cfg=dict(kw), show=m.showl, vcycles=30)
+    if kind == "dispatcher":
+        m = c16.DispMon(kw["n"], kw.get("one_hot", False))
+        # the selector belongs to the token: it is held while a beat is offered and not yet accepted
+        hold = m.reg(1, "sel_pending"); psel = m.reg(len(m.dut.sel), "sel_prev")
+        m.sync += [hold.eq(m.master.valid & ~m.master.ready), psel.eq(m.dut.sel)]
+        asel = Signal(name_override="asm_sel_held_with_token")
+        m.comb += asel.eq(~hold | (m.dut.sel == psel))
+        bad = 0
+        for i, sl in enumerate(m.slaves):
+            bad = bad | valid_stable_monitor(m, sl, "slave%d" % i)
+        b = Signal(name_override="bad_stable")
+        m.comb += b.eq(bad)
+        return H("packet_dispatcher_%d.stable" % kw["n"], m, m.free, assume=[m.asm, asel], bad=dict(stable=b), witness=dict(sel_changed_mid_packet=m.w), K=K, funcs=F, cfg=dict(kw), show=m.showl, vcycles=30)
+    if kind == "fifo":
+        m = c16.PFifoMon(kw["depth"], kw["param_depth"], kw.get("buffered", False))
+        bad = valid_stable_monitor(m, m.dut.source, "source")
+        return H("packetfifo_d%d_p%s.stable" % (kw["depth"], kw["param_depth"]), m, m.free, rigid=[m.P, m.N], assume=[m.pc.asm, m.no_ovf], bad=dict(stable=bad), witness=dict(two_packets=m.w), K=K,
+                 funcs=F + ["litex.soc.interconnect.stream.SyncFIFO"], cfg=dict(kw), show=m.showl, vcycles=30)
+    if kind == "packetizer":
+        m = c16.PktzMon(kw["header"], kw["dw"])
+        bad = valid_stable_monitor(m, m.dut.source, "source")
+        return H("packetizer_%s_d%d.stable" % (kw["header"], kw["dw"]), m, m.free, rigid=[m.B], assume=[m.pc.asm, m.no_ovf], bad=dict(stable=bad), witness=dict(two_packets=m.w), K=K, funcs=F,
+                 cfg=dict(kw), show=m.showl, vcycles=30, excuses=dict(stable=[m.pc.exc]))
+    raise KeyError(kind)
+
+
 def jobs(tier):
     K = 24 if tier == "thorough" else 16
     js = []
+    KP = 16 if tier == "thorough" else 12
+    js += [Job("packet_arbiter_2.stable", _packet, dict(kind="arbiter", K=KP, n=2), cost=6), Job("packet_dispatcher_2.stable", _packet, dict(kind="dispatcher", K=KP, n=2), cost=6),
+           Job("packetfifo_d4_p2.stable", _packet, dict(kind="fifo", K=KP, depth=4, param_depth=2), cost=10)]
+    from vf.props.c16 import HEADERS
+    hn = sorted(HEADERS)[0]
+    js.append(Job("packetizer_%s_d8.stable" % hn, _packet, dict(kind="packetizer", K=KP, header=hn, dw=8), cost=10))
+    if tier == "thorough":
+        js += [Job("packet_arbiter_3.stable", _packet, dict(kind="arbiter", K=KP, n=3), cost=12), Job("packet_dispatcher_3.stable", _packet, dict(kind="dispatcher", K=KP, n=3), cost=12)]
     for e in streams.catalogue():
         if tier in e.tiers:
             js.append(Job(e.name + ".stable", _build, dict(name=e.name, K=K, which="c04a"), cost=e.cost))
